@@ -66,6 +66,95 @@ theorem dlc_iso : dlcOf 0 = 0 ∧ dlcOf 8 = 8 ∧ dlcOf 12 = 9 ∧ dlcOf 16 = 10
   intro n hn
   simp [dlcOf, hn]
 
+/-- ISO 11898-1: the size of the data field a DLC code stands for (classic CAN 0..8 ↦ the code itself; CAN FD 9 ↦ 12, 10 ↦ 16,
+    11 ↦ 20, 12 ↦ 24, 13 ↦ 32, 14 ↦ 48, 15 ↦ 64; a DLC is a 4-bit field, codes above 15 do not exist: 0) -/
+def dlcLen (c : Nat) : Nat :=
+  if c ≤ 8 then c
+  else if c = 9 then 12 else if c = 10 then 16 else if c = 11 then 20 else if c = 12 then 24
+  else if c = 13 then 32 else if c = 14 then 48 else if c = 15 then 64 else 0
+
+/-- `dlcLen` is the ISO table -/
+theorem dlcLen_table (c : Nat) : dlcLen c = [0,1,2,3,4,5,6,7,8,12,16,20,24,32,48,64].getD c 0 := by
+  by_cases h : c ≤ 15
+  · have hc : c = 0 ∨ c = 1 ∨ c = 2 ∨ c = 3 ∨ c = 4 ∨ c = 5 ∨ c = 6 ∨ c = 7 ∨ c = 8 ∨ c = 9 ∨ c = 10 ∨ c = 11 ∨
+        c = 12 ∨ c = 13 ∨ c = 14 ∨ c = 15 := by omega
+    rcases hc with e | e | e | e | e | e | e | e | e | e | e | e | e | e | e | e <;> subst e <;> decide
+  · have h1 : dlcLen c = 0 := by
+      unfold dlcLen
+      repeat' split
+      all_goals omega
+    rw [h1, List.getD_eq_getElem?_getD, List.getElem?_eq_none (by simp only [List.length_cons, List.length_nil]; omega)]
+    rfl
+
+/-- `dlcOf`, range by range -/
+theorem dlcOf_cases (n : Nat) :
+    (n ≤ 8 ∧ dlcOf n = n) ∨ (8 < n ∧ n ≤ 12 ∧ dlcOf n = 9) ∨ (12 < n ∧ n ≤ 16 ∧ dlcOf n = 10) ∨
+    (16 < n ∧ n ≤ 20 ∧ dlcOf n = 11) ∨ (20 < n ∧ n ≤ 24 ∧ dlcOf n = 12) ∨ (24 < n ∧ n ≤ 32 ∧ dlcOf n = 13) ∨
+    (32 < n ∧ n ≤ 48 ∧ dlcOf n = 14) ∨ (48 < n ∧ dlcOf n = 15) := by
+  unfold dlcOf
+  repeat' split
+  all_goals omega
+
+/-- `dlcLen`, code by code -/
+theorem dlcLen_cases (c : Nat) :
+    (c ≤ 8 ∧ dlcLen c = c) ∨ (c = 9 ∧ dlcLen c = 12) ∨ (c = 10 ∧ dlcLen c = 16) ∨ (c = 11 ∧ dlcLen c = 20) ∨
+    (c = 12 ∧ dlcLen c = 24) ∨ (c = 13 ∧ dlcLen c = 32) ∨ (c = 14 ∧ dlcLen c = 48) ∨ (c = 15 ∧ dlcLen c = 64) ∨
+    (15 < c ∧ dlcLen c = 0) := by
+  unfold dlcLen
+  repeat' split
+  all_goals omega
+
+/-- the DLC code COVERS the data length, and it is the SMALLEST code that does: for every length a CAN FD data field can hold
+    (0..64) the data field announced by `dlcOf n` has room for the `n` bytes, and no smaller code's data field has -/
+theorem dlc_covers (n : Nat) (hn : n ≤ 64) : n ≤ dlcLen (dlcOf n) ∧ ∀ c, c < dlcOf n → dlcLen c < n := by
+  have h1 := dlcOf_cases n
+  have h2 := dlcLen_cases (dlcOf n)
+  refine ⟨by omega, ?_⟩
+  intro c hc
+  have h3 := dlcLen_cases c
+  omega
+
+/-- the DLC code stands for EXACTLY the data length iff the length is one of the sixteen ISO data-field sizes -/
+theorem dlc_exact_iff (n : Nat) :
+    dlcLen (dlcOf n) = n ↔
+      (n ≤ 8 ∨ n = 12 ∨ n = 16 ∨ n = 20 ∨ n = 24 ∨ n = 32 ∨ n = 48 ∨ n = 64) := by
+  have h1 := dlcOf_cases n
+  have h2 := dlcLen_cases (dlcOf n)
+  omega
+
+/-- above the largest CAN FD data field: the largest code -/
+theorem dlc_above_64 (n : Nat) (hn : 64 < n) : dlcOf n = 15 := by
+  unfold dlcOf
+  repeat' split
+  all_goals omega
+
+/-- `dlcOf` is monotone and never 0 for a non-empty data field (the repaired defect: DLC 0 next to a non-zero data length) -/
+theorem dlc_mono (m n : Nat) (h : m ≤ n) : dlcOf m ≤ dlcOf n := by
+  unfold dlcOf
+  repeat' split
+  all_goals omega
+
+theorem dlc_zero_iff (n : Nat) : dlcOf n = 0 ↔ n = 0 := by
+  unfold dlcOf
+  repeat' split
+  all_goals omega
+
+/-- K5 on a built CAN / CAN-FD payload: the DLC byte is `dlcOf` of the number of bytes supplied, the data-length byte is that
+    number (both from `can_setData`), hence — for every length a CAN FD frame can carry — the data field the DLC byte announces
+    covers the data-length byte, no smaller code does, and the two agree exactly on the ISO lengths; above 64 the DLC byte is 15. -/
+theorem can_setData_dlc (b d : Bytes) (hb : 16 ≤ b.length) (hd : d.length < 256) :
+    let o := canSetData b d
+    byteAt o 14 = dlcOf d.length ∧ byteAt o 15 = d.length ∧ byteAt o 14 ≤ 15 ∧
+    (d.length ≤ 64 → byteAt o 15 ≤ dlcLen (byteAt o 14) ∧ ∀ c, c < byteAt o 14 → dlcLen c < byteAt o 15) ∧
+    (dlcLen (byteAt o 14) = byteAt o 15 ↔
+      (d.length ≤ 8 ∨ d.length = 12 ∨ d.length = 16 ∨ d.length = 20 ∨ d.length = 24 ∨ d.length = 32 ∨ d.length = 48 ∨
+        d.length = 64)) ∧
+    (64 < d.length → byteAt o 14 = 15) ∧ (byteAt o 14 = 0 ↔ d.length = 0) := by
+  intro o
+  obtain ⟨_, _, h14, h15, _, _⟩ := can_setData b d hb hd
+  rw [h14, h15]
+  exact ⟨rfl, rfl, dlcOf_le _, dlc_covers _, dlc_exact_iff _, dlc_above_64 _, dlc_zero_iff _⟩
+
 /-! ### LIN -/
 theorem lin_setData (b d : Bytes) (hb : 8 ≤ b.length) (hd : d.length < 256) :
     let o := linSetData b d
